@@ -75,8 +75,9 @@ def parse_spec(text):
 def name_return(header):
     """`fn f(..) -> T` => `fn f(..) -> (r: T)`"""
     mask = code_mask(header)
-    # find the parameter list's closing paren
-    i = header.find('(')
+    # find the parameter list's closing paren (the first `(` after `fn NAME`, not the one of `pub(crate)`)
+    fm = re.search(r'\bfn\s+\w+', header)
+    i = header.find('(', fm.end() if fm else 0)
     if i < 0:
         raise AnchorLost('fn header without parameter list: ' + header)
     j = match_brace(header, mask, i, '(', ')')
